@@ -355,8 +355,12 @@ func runC10(c *Ctx) {
 							if fv, ok := u.X.(*ssa.FreeVar); ok {
 								if p, ok := x.bind[fv].(*ssa.Alloc); ok && p.Parent() == W {
 									if ps := x.stores(c10cell{p, -1}); ps.ok && len(ps.sts) == 1 {
-										if al, ok := ps.sts[0].Val.(*ssa.Alloc); ok && al.Parent() == W && c10IsStructPtr(al.Type()) {
+										// (the struct allocated by the outer function, or for it by a constructor it calls)
+										if al, made := x.objAllocOf(ps.sts[0].Val); al != nil {
 											x.obj, x.objPtr, x.objParam = al, p, g.Params[i]
+											if made != nil {
+												x.ctor, x.ctorCall = staticCallee(made), made
+											}
 										}
 									}
 								}
@@ -524,7 +528,7 @@ func runC10(c *Ctx) {
 	// shared(st): the cell a store of the callback writes, if it is state shared with the outer function
 	shared := func(addr ssa.Value) (c10cell, bool) {
 		cell, ok := x.cellOf(addr)
-		if !ok || cell.base.Parent() != W {
+		if !ok || !(cell.base.Parent() == W || (x.ctor != nil && cell.base == x.obj)) {
 			return c10cell{}, false
 		}
 		return cell, true
@@ -572,7 +576,7 @@ func runC10(c *Ctx) {
 		okInit := !down // the zero value of the fresh cell
 		for _, st := range cs.sts {
 			switch {
-			case st.Parent() == W:
+			case x.inOuter(st.Parent()):
 				nW++
 				if down {
 					okInit = x.isLimit(st.Val)
@@ -815,7 +819,7 @@ func runC10(c *Ctx) {
 			bv, isK := c10BoolConst(st.Val)
 			switch {
 			case x.inCallback(st.Parent()) && isK && bv: // judged above
-			case st.Parent() == W && isK && !bv:
+			case x.inOuter(st.Parent()) && isK && !bv:
 			default:
 				okF = false
 			}
@@ -846,7 +850,7 @@ func runC10(c *Ctx) {
 				} else if _, isAl := sl.X.(*ssa.Alloc); !isAl {
 					okF = false
 				}
-			case st.Parent() == W && isNilConst(st.Val):
+			case x.inOuter(st.Parent()) && isNilConst(st.Val):
 			default:
 				okF = false
 			}
@@ -984,6 +988,16 @@ func (x *c10frame) objectDiscipline() (bool, string) {
 		for _, r := range *refs {
 			switch u := r.(type) {
 			case *ssa.FieldAddr, *ssa.DebugRef:
+			case *ssa.Store:
+				// the address the constructor returned is put into the one local that holds it
+				if !(x.ctorCall != nil && v == ssa.Value(x.ctorCall) && x.objPtr != nil && u.Addr == ssa.Value(x.objPtr) && u.Val == v) {
+					return what + " is used other than field by field (" + x.w.InstrPos(r) + ")"
+				}
+			case *ssa.UnOp:
+				// a load of the whole object: a copy (see c10WholeLoad)
+				if !c10WholeLoad(u, v) {
+					return what + " is used other than field by field (" + x.w.InstrPos(r) + ")"
+				}
 			case *ssa.MakeClosure:
 				// captured once more by the per-signature worker made inside the callback (its uses are judged below)
 				if x.hmc == nil || u != x.hmc {
@@ -1017,6 +1031,11 @@ func (x *c10frame) objectDiscipline() (bool, string) {
 	for _, r := range *x.obj.Referrers() {
 		switch u := r.(type) {
 		case *ssa.FieldAddr, *ssa.DebugRef:
+		case *ssa.UnOp:
+			// a load of the whole object: a copy (see c10WholeLoad)
+			if !c10WholeLoad(u, x.obj) {
+				return false, "the address of the object escapes (" + x.w.InstrPos(r) + ")"
+			}
 		case *ssa.Store:
 			if !(x.objPtr != nil && u.Addr == ssa.Value(x.objPtr) && u.Val == ssa.Value(x.obj)) {
 				return false, "the object is overwritten as a whole or its address is stored (" + x.w.InstrPos(u) + ")"
@@ -1025,8 +1044,33 @@ func (x *c10frame) objectDiscipline() (bool, string) {
 			if u != x.mc && (x.hmc == nil || u != x.hmc) {
 				return false, "the object is captured by another closure"
 			}
+		case *ssa.Return:
+			// the constructor hands the object it built to the outer function (c10frame.ctorAlloc)
+			if !(x.ctor != nil && u.Parent() == x.ctor) {
+				return false, "the address of the object escapes (" + x.w.InstrPos(r) + ")"
+			}
+		case *ssa.Call:
+			// The object is a struct-valued local of the outer function (`st := state{…}`, no local that holds its address)
+			// and the outer function calls a read-only accessor on it (`st.limitError()`, `verified(&st)`): the address goes
+			// to a parameter that is used for nothing but loading whole fields (c10frame.findAccessors / c10ReadOnlyParam),
+			// so the callee neither stores through it nor keeps or hands back a way to reach the object — the same argument,
+			// and the same test, as for an accessor called through the local that holds the address or through the page
+			// worker's parameter (onlyFields above). Every other call that receives the address makes it escape.
+			if !x.accCalls[u] {
+				return false, "the address of the object escapes (" + x.w.InstrPos(r) + ")"
+			}
 		default:
 			return false, "the address of the object escapes (" + x.w.InstrPos(r) + ")"
+		}
+	}
+	// the object built by a constructor: the constructor is nothing else in this verification, and the outer function
+	// uses the address it returned field by field, or keeps it in the one local that holds it
+	if x.ctorCall != nil {
+		if x.ctor == x.A || x.ctor == x.CB || (x.H != nil && x.ctor == x.H) || x.obj.Parent() != x.ctor {
+			return false, "the constructor of the object also runs as part of the callback"
+		}
+		if why := onlyFields(x.ctorCall, "the object"); why != "" {
+			return false, why
 		}
 	}
 	// the local that holds its address
@@ -1109,6 +1153,17 @@ func (x *c10frame) objectDiscipline() (bool, string) {
 		}
 	}
 	return true, ""
+}
+
+// c10WholeLoad: u reads the whole state object through its address (`*obj`: the receiver of a value-receiver method
+// called on it — `func (s state) limitError() error` —, a struct argument, a snapshot for a log line). The result is a
+// copy of the struct: no store to a field of the object can be made through it and it is no way to reach the object, so
+// "the stores found field by field are all the stores there are" — all the object discipline is there for — is not
+// touched by it. What is read from the copy is not state of the verification for any rule: a test made on a copy is not
+// recognised as a test of the counter or of the success indicator (c10frame.cellOfLoad knows field loads through the
+// object's address only), so a decision that moves onto a copy is still reported by the rule that needs the decision.
+func c10WholeLoad(u *ssa.UnOp, addr ssa.Value) bool {
+	return u.Op == token.MUL && u.X == addr && c10IsStructPtr(addr.Type())
 }
 
 func paramDesc(fn *ssa.Function, p *ssa.Parameter) string {
